@@ -198,6 +198,26 @@ func init() {
 				"state.getAuthInfoFromAuthJWT": {lean: "ext.getAuthInfo", ret: []string{"authInfo", "error"}},
 				"state.writeFailureResponse":   {lean: "ext.unit", ret: []string{}, args: []int{2}, effect: "KM.GoTypes.HttpEffect.fail"}},
 			retLean: "(Option KM.GoTypes.authInfo × Option KM.Go.Err) × List KM.GoTypes.HttpEffect"},
+		// C01: the gates of certGenHandler in program order, each refusal an effect, up to the method test
+		glTarget{pkg: "cmd/keymasterd", name: "certgenGates", group: "CertGen", natInts: true,
+			in: "certGenHandler", blockFrom: "if signerIsNull", blockUpto: "logger.Debugf(3, \"Got client POST connection\")",
+			blockReach: "KM.GoTypes.HttpEffect.reached",
+			binders:    "(ext : KM.GoTypes.CertgenExt) (signerIsNull : Bool) (allowedForCerts : List (List Char)) (urlUser method : List Char)",
+			traceLean:  "KM.GoTypes.HttpEffect",
+			paths: map[string][2]string{
+				"signerIsNull": {"signerIsNull", "bool"},
+				"state.Config.Base.AllowedAuthBackendsForCerts": {"allowedForCerts", "[]string"},
+				"r.URL.Path[len(certgenPath):]":                 {"urlUser", "string"},
+				"r.Method":                                      {"method", "string"},
+				"AuthTypeAny":                                   {"(65535 : Nat)", "int"},
+				"http.StatusInternalServerError":                {"(500 : Nat)", "int"},
+				"http.StatusUnauthorized":                       {"(401 : Nat)", "int"},
+				"http.StatusForbidden":                          {"(403 : Nat)", "int"},
+				"http.StatusMethodNotAllowed":                   {"(405 : Nat)", "int"}},
+			externs: map[string]glExtern{
+				"state.checkAuth":            {lean: "ext.checkAuth", ret: []string{"authInfo", "error"}, args: []int{2}},
+				"state.writeFailureResponse": {lean: "()", ret: []string{}, args: []int{2}, effect: "KM.GoTypes.HttpEffect.fail"}},
+			retLean: "Unit × List KM.GoTypes.HttpEffect"},
 		// C01 / C06
 		glTarget{pkg: "cmd/keymasterd", name: "getRequiredWebUIAuthLevel", group: "Auth",
 			binders: "(allowedWebUI : List (List Char))", natInts: true,
